@@ -27,6 +27,14 @@ EXPLANATION = (
 def run(ctx: Ctx) -> None:
     from ..rules import echelon as _echelon
     _echelon.arm(ctx)
+    # generic rules first: an undecidable clause further down (AnalysisError) must not hide their findings
+    from ..rules import memo
+    _m3 = [HEIGHT, TRS, "graphiq/backends/stabilizer/functions/stabilizer.py", "graphiq/utils/relabel_module.py"]
+    memo.rule_memo_sound(ctx, _m3)
+    memo.rule_falsy_zero(ctx, _m3)
+    memo.rule_arg_names(ctx, _m3)
+    memo.rule_fixed_width(ctx, _m3)
+    memo.rule_paste_incomplete(ctx, _m3)
     repo = ctx.repo
     m = repo.module(TRS)
     sv = repo.anchor(TRS, "TimeReversedSolver.solve")
@@ -183,6 +191,35 @@ def run(ctx: Ctx) -> None:
         ctx.fail("height.formula", hm, ha[0] if ha else hf,
                  "height_func_list does not compute n - (k + 1) - #{generators whose leftmost non-trivial index is > k}", func="height_func_list",
                  construct=f"height_func_list: {short(ha[0], 100) if ha else 'no height assignment'}")
+    # every position receives the height computed for it: no early exit from the position loop, nothing else written to the list
+    ploop = next((l for l in _anc(app[0]) if isinstance(l, ast.For)), None)
+    if ploop is None:
+        raise AnalysisError("height_func_list: the loop over positions was not found")
+    nq_ = next((norm(n.targets[0]) for n in ast.walk(hf) if isinstance(n, ast.Assign) and "shape" in norm(n.value)), "?")
+    it_ok = isinstance(ploop.iter, ast.Call) and call_name(ploop.iter) == "range" and len(ploop.iter.args) == 1 and norm(ploop.iter.args[0]) == nq_
+    exits = [x for x in ast.walk(ploop) if isinstance(x, (ast.Break, ast.Continue, ast.Return))
+             and next((a for a in _anc(x) if isinstance(a, (ast.For, ast.While))), None) is ploop]
+    others = [c for c in calls_in(hf) if isinstance(c.func, ast.Attribute) and isinstance(c.func.value, ast.Name) and c.func.value.id == rname
+              and c.func.attr in ("extend", "insert", "pop", "remove", "clear") ] + \
+             [a for a in ast.walk(hf) if isinstance(a, ast.AugAssign) and norm(a.target) == rname] + \
+             [a for a in ast.walk(hf) if isinstance(a, ast.Assign) and any(isinstance(t, ast.Subscript) and norm(t.value) == rname for t in a.targets)]
+    uncond = flow.must_pass(ploop.body, lambda nd: nd is app[0] or (isinstance(nd, ast.Expr) and nd.value is app[0]))
+    if it_ok and not exits and not others and uncond:
+        ctx.ok("height.formula", hm, ploop, what="one computed height per position 0..n-1, no early exit, no padding")
+    else:
+        why = []
+        if not it_ok:
+            why.append(f"the positions iterate `{short(ploop.iter)}` instead of range({nq_})")
+        if exits:
+            why.append(f"the position loop is left early (`{short(exits[0])}` at line {exits[0].lineno})")
+        if others:
+            why.append(f"`{short(others[0])}` writes entries that were not computed by the formula")
+        if not uncond:
+            why.append("the computed height is appended only on some paths")
+        ctx.fail("height.formula", hm, exits[0] if exits else (others[0] if others else ploop),
+                 "height_func_list does not evaluate the height at every position: " + "; ".join(why) +
+                 " — the height can rise again after it has come back to zero (a product cut inside the state)", func="height_func_list",
+                 construct="height_func_list: positions not all evaluated")
     # node order of the graph entry point: the solver and every conversion index qubits by the graph's own node order
     hd0 = repo.anchor(HEIGHT, "height_dict")
     ctx.touch(hm, hd0)
@@ -230,17 +267,17 @@ def run(ctx: Ctx) -> None:
         ctx.ok("height.formula", rm_, apps[0], what="emitter_sorted: count = height maximum of the whole graph")
     else:
         badv = next((a for a in cnt_defs if not _whole(a.value)), None)
+        if badv is not None and not any(isinstance(c, ast.Call) and call_name(c) in ("height_max", "TimeReversedSolver.determine_n_emitters", "height_func_list", "height_dict")
+                                        for c in ast.walk(badv.value)):
+            # a different algorithm altogether: whether it equals the height maximum is not visible in its shape
+            raise AnalysisError(f"emitter_sorted takes the emitter count from `{short(badv.value, 60)}`, not from the height function; the checker has no "
+                                f"summary of that computation, so this clause is undecided (neither pass nor violation)")
         ctx.fail("height.formula", rm_, badv or apps[0],
                  f"emitter_sorted pairs the adjacency matrix with `{short(badv.value, 60) if badv is not None else norm(cnt_e)}`, which is not the height "
                  f"maximum of the graph of that whole matrix: the height at a cut adds up over components (two interleaved pairs {{0-2, 1-3}} need 2 "
                  f"emitters, their pieces 1 each), so a per-piece maximum under-reports the emitters the solver then really uses",
                  func="emitter_sorted", construct="emitter_sorted: emitter count not taken from the whole graph")
     # advisory noted in DESIGN §5.3
-    from ..rules import memo
-    _m3 = [HEIGHT, TRS, "graphiq/backends/stabilizer/functions/stabilizer.py", "graphiq/utils/relabel_module.py"]
-    memo.rule_memo_sound(ctx, _m3)
-    memo.rule_falsy_zero(ctx, _m3)
-    memo.rule_arg_names(ctx, _m3)
     hd = repo.anchor(HEIGHT, "height_dict")
     for n in ast.walk(hd):
         if isinstance(n, ast.Assign) and isinstance(n.value, ast.Call) and call_attr(n.value) == "sort":
@@ -258,6 +295,8 @@ def _anc(n):
 
 
 KNOCKOUTS = [
+    Knockout("bit-packing-int64", "graphiq/utils/relabel_module.py", sub_once("        n_emit = height_max(graph=g)\n", "        n_emit = height_max(graph=g)\n        packed = adj.astype(int) @ (1 << np.arange(adj.shape[0]))\n"), "num.fixed-width", "emitter_sorted"),
+    Knockout("height-stops-at-first-zero", HEIGHT, sub_once("        height_list.append(height)\n    return height_list", "        height_list.append(height)\n        if height == 0:\n            break\n    height_list.extend([0] * (n_qubits - len(height_list)))\n    return height_list"), "height.formula", "positions not all evaluated"),
     Knockout("rref-finder-skips-pivot-row", STABF_, sub_once("    for row_i in range(pivot[0], n_qubits):\n        if x_matrix[row_i, pivot[1]] == 1 and z_matrix[row_i, pivot[1]] == 0:", "    for row_i in range(pivot[0] + 1, n_qubits):\n        if x_matrix[row_i, pivot[1]] == 1 and z_matrix[row_i, pivot[1]] == 0:"), "rref.classify", "row range"),
     Knockout("rref-finder-y-as-z", STABF_, sub_once("        elif x_matrix[row_i, pivot[1]] == 1 and z_matrix[row_i, pivot[1]] == 1:\n            pauli_y_list.append(row_i)", "        elif x_matrix[row_i, pivot[1]] == 1 and z_matrix[row_i, pivot[1]] == 1:\n            pauli_z_list.append(row_i)"), "rref.classify", "misfiles"),
     Knockout("rref-dispatch-only-z-uses-y", STABF_, sub_once("        return _process_one_pauli(tableau, pivot, pauli_z_list)", "        return _process_one_pauli(tableau, pivot, pauli_y_list)"), "rref.dispatch", "Z:"),
